@@ -1,9 +1,10 @@
 from propsdef import KERNEL, CORR, HARNESS
 
 PROP = {
+    "uses_generated": True,
         "obligations": [
             # the source-derived inventory (generated obligations: re-decided whenever /repo's sources change)
-            "sites_covered", "unsafe_sites_covered", "unsafe_accounts_wellformed", "c17_sites_covered",
+            "unsafe_sites_covered", "unsafe_accounts_wellformed", "c17_sites_covered",
             # read_handler: one total case analysis, incl. the null-pointer / usize::try_from early exits
             "read_handler_total", "read_handler_success_iff",
             # Parser::new / next_event* / Drop as a resource trace
